@@ -1116,18 +1116,23 @@ struct BitVecH : Harness {
 // ArenaPool  vs  free-list model
 // ---------------------------------------------------------------------------------------------------------
 struct PObj { uint64_t w[5]; };
+// Element sizes that are not a multiple of Arena::kAlignment: the pool must round them up itself, otherwise every
+// later allocation from the shared arena (by any container) starts misaligned.
+struct PObj12 { uint32_t w[3]; };
+struct PObj20 { uint32_t w[5]; };
 
-struct PoolH : Harness {
-  ArenaPool<PObj> pool;
+template<typename PObj, size_t Size = sizeof(PObj)>
+struct PoolHT : Harness {
+  ArenaPool<PObj, Size> pool;
   std::vector<std::pair<PObj*, uint64_t>> live;
   std::set<PObj*> pooled;
   const char* K = "pool";
   size_t soft_cap;
-  PoolH() { family = F_POOL; soft_cap = C->r.chance(1, 2) ? 8 : 300; }
+  PoolHT() { family = F_POOL; soft_cap = C->r.chance(1, 2) ? 8 : 300; }
 
   void verify(const char* when) {
     g_stats.compares++;
-    for (auto& o : live) { long off = stamp_check(o.first, sizeof(PObj), o.second); if (off >= 0) { C->viol(S("pool:live-object-corrupted:%s", when), S("a live pooled object changed at byte %ld", off)); stamp_fill(o.first, sizeof(PObj), o.second); } }
+    for (auto& o : live) { long off = stamp_check(o.first, Size, o.second); if (off >= 0) { C->viol(S("pool:live-object-corrupted:%s", when), S("a live pooled object changed at byte %ld", off)); stamp_fill(o.first, Size, o.second); } }
     if (pool.pooled_item_count() != pooled.size()) C->viol(S("pool:pooled_item_count-wrong:%s", when), S("pooled_item_count()=%zu, model has %zu released objects", pool.pooled_item_count(), pooled.size()));
   }
   void check_all(const char* when) override { verify(when); }
@@ -1142,19 +1147,19 @@ struct PoolH : Harness {
       bool fired; PObj* p; { Fault f(C->maybe_fault()); p = pool.alloc(*C->arena); fired = f.fired(); }
       if (!p) { if (!fired || !pooled.empty()) C->viol("pool:alloc-null", "ArenaPool::alloc returned null although no failure was injected / released objects were available"); return; }
       if (!pooled.empty()) {
-        if (!pooled.count(p)) { C->viol("pool:alloc-ignores-released", "alloc() returned memory that is not one of the released objects although some were pooled"); if (!C->add_block(p, Arena::aligned_size(sizeof(PObj)), "pool-object", "pool.alloc")) return; }
+        if (!pooled.count(p)) { C->viol("pool:alloc-ignores-released", "alloc() returned memory that is not one of the released objects although some were pooled"); if (!C->add_block(p, Arena::aligned_size(Size), "pool-object", "pool.alloc")) return; }
         else pooled.erase(p);
       }
-      else if (!C->add_block(p, Arena::aligned_size(sizeof(PObj)), "pool-object", "pool.alloc")) return;
+      else if (!C->add_block(p, Arena::aligned_size(Size), "pool-object", "pool.alloc")) return;
       for (auto& o : live) if (o.first == p) { C->viol("pool:alloc-returns-live-object", "alloc() returned an object that is still live"); C->abort = true; return; }
       uint64_t id = C->next_id++;
-      stamp_fill(p, sizeof(PObj), id);
+      stamp_fill(p, Size, id);
       live.push_back({ p, id });
     }
     else {
       size_t i = r.below(live.size()); if (r.chance(1, 3)) i = live.size() - 1;
       C->log(family, K, "release", i, live.size());
-      long off = stamp_check(live[i].first, sizeof(PObj), live[i].second);
+      long off = stamp_check(live[i].first, Size, live[i].second);
       if (off >= 0) C->viol("pool:live-object-corrupted:release", S("a live pooled object changed at byte %ld", off));
       pool.release(live[i].first);
       pooled.insert(live[i].first);
@@ -1677,7 +1682,7 @@ static Harness* make_harness(int id) {
     case 6: return new ListH();
     case 7: return new BitSetH();
     case 8: return new BitVecH();
-    case 9: return new PoolH();
+    case 9: switch (C->r.below(4)) { case 0: return new PoolHT<PObj12>(); case 1: return new PoolHT<PObj20>(); case 2: return new PoolHT<PObj12, 20>(); default: return new PoolHT<PObj>(); }
     case 10: return new AStrH();
     case 11: return new StrH();
     default: return new RawH();
